@@ -380,10 +380,15 @@ class IrGenerator:
             ctx = ir.StatemachineContext.get()
 
             if inp._awaitable_primitive:
+                # an always-false while loop is replaced by `await true`, the statements
+                # that evaluated its (discarded) condition must not end the special case
+                # for awaits at the start of the process
+                start_await_true = ctx.at_start() and inp.result() is _boolean.true
+
                 for expr_before in inp._expr_before:
                     open_blocks = self.apply(expr_before, open_blocks=open_blocks)
 
-                if ctx.at_start():
+                if ctx.at_start() or start_await_true:
                     # special case for sequential instances with `await` as
                     # first statement. Empty first state is used to avoid
                     # delay of one tick at start of instance.
